@@ -257,7 +257,9 @@ def main(argv):
             'trusted_base': sorted(set(trusted)),
             'explanation': 'One obligation = one function under contract whose full Verus verification condition (pre/postconditions, '
                            'loop invariants, overflow/index/unwrap safety) was discharged by Z3, plus one per complete loop-free Kani kernel. '
-                           'Bodies and headers are re-extracted from /repo on every run.',
+                           'Bodies and headers are re-extracted from /repo on every run. witness_sweep lists the concrete witness programs '
+                           '(runs on the real crates, some of them bounded exhaustive enumerations against an independent model) executed '
+                           'after the obligations: that is TESTING, it is never counted in obligations / discharged.',
             'samples': samples[:12],
             'units': evidence_units,
             'kani': kani_results,
